@@ -145,3 +145,5 @@ var checks = []Check{
 		Technique:   technique,
 	},
 }
+
+func register(c Check) { checks = append(checks, c) }
